@@ -186,6 +186,12 @@ func (s *State) Eval(v ssa.Value) AVal {
 		}
 	}
 	switch x := v.(type) {
+	case *ssa.Call:
+		// library summary: these constructors never return nil
+		switch ShortCallee(&x.Call) {
+		case "fmt.Errorf", "errors.New":
+			return AVal{K: ANonNil}
+		}
 	case *ssa.ChangeType:
 		return s.Eval(x.X)
 	case *ssa.ChangeInterface:
